@@ -599,7 +599,8 @@ def prove(assumptions, goal, timeout_s=10, opts=None, rounds=2):
                 goal = z3.And(*rest) if len(rest) > 1 else rest[0]
     except Exception:  # pragma: no cover
         pass
-    if not (opts or {}).get("no_slice"):
+    if not (opts or {}).get("no_slice") and _symbols(goal, {}):
+        # (a goal without symbols — `False` for an infeasibility obligation — has no cone of influence: keep everything)
         assumptions = slice_assumptions(list(assumptions), goal)
     base = [a for a in assumptions] + [z3.Not(goal)]
     if (opts or {}).get("uf_abstraction"):
